@@ -606,7 +606,39 @@ def eval_container(case):
     return res
 
 
+def eval_repeat(case):
+    """an analysis called again on the same (equal) input gives the identical result: small note arrays with
+    simultaneous notes, where an answer that depends on set/dict iteration order or object addresses shows up"""
+    import numpy as np
+    from partitura.musicanalysis import estimate_voices, estimate_spelling, estimate_key
+
+    res = CaseResult(states=1, transitions=0, traces=1)
+    rows = case["rows"]
+    na = np.array([(o, d, p, "n%d" % i) for i, (o, d, p) in enumerate(rows)],
+                  dtype=[("onset_beat", "f4"), ("duration_beat", "f4"), ("pitch", "i4"), ("id", "U8")])
+    keep = na.copy()
+    outs = []
+    for name, fn in (("estimate_voices[mono]", lambda a: estimate_voices(a, monophonic_voices=True)),
+                     ("estimate_voices[chord]", lambda a: estimate_voices(a, monophonic_voices=False)),
+                     ("estimate_spelling", lambda a: estimate_spelling(a)),
+                     ("estimate_key", lambda a: estimate_key(a))):
+        seen = []
+        for k in range(4):
+            res.transitions += 1
+            seen.append(call(fn, na if k % 2 == 0 else na.copy()))
+        if any(x != seen[0] for x in seen[1:]):
+            res.fail("repeatable", expected="identical result on every call", observed=[str(x[1])[:120] for x in seen],
+                     where=name.split("[")[0], detail="%s on rows %r" % (name, rows))
+        outs.append("ok" if seen[0][0] else seen[0][1])
+    if na.tobytes() != keep.tobytes():
+        res.fail("argument-unchanged", expected="note array unchanged", observed="changed", where="musicanalysis", detail=repr(rows))
+    res.outcome = "repeat:" + "|".join(outs)
+    return res
+
+
 def eval_case(case):
+    if case["kind"] == "repeat":
+        return eval_repeat(case)
     if case["kind"] == "iter":
         return eval_iter(case)
     if case["kind"] == "container":
@@ -655,6 +687,13 @@ def spaces(tier, seed):
         if tier == "thorough":
             it.append(dict(kind="iter", container=kind, n=4, k=2))
             it.append(dict(kind="iter", container=kind, n=3, k=3, maxp=4))
+    grid = [(o, d, p) for o in (0, 1) for d in (0, 1, 2) for p in (48, 60, 72)]
+    rep = [dict(kind="repeat", rows=[list(r) for r in c]) for n in (2, 3, 4) for c in itertools.combinations_with_replacement(grid, n)]
+    if tier == "quick":
+        rep = [c for i, c in enumerate(rep) if len(c["rows"]) < 4 or i % 3 == seed % 3]
+    sp.append(Space("analyses-repeatable", rep, True,
+                    "all multisets of 2-4 rows over onset {0,1} x duration {0,1,2} x pitch {48,60,72} (quick: 1/3 of the 4-row ones by seed): "
+                    "estimate_voices (both modes), estimate_spelling, estimate_key called four times, alternately on the array and on a copy"))
     names_a = sorted(_names("array"))
     sp.append(Space("array-sequences", [dict(kind="array", feats=f, variant=v, seq=[a, b]) for f in ([], ["tie", "grace"], ["two_parts", "overlap"])
                                          for v in ("score", "part") for a in names_a for b in names_a], True,
